@@ -6,6 +6,7 @@ import types
 from . import model
 from .tyast import Ty, py_class
 
+SMALL_INTS_ONLY = False   # round-trip workloads avoid |n| >= 2**63 (numpy promotes such int arrays to float64)
 INTS = (0, 1, -1, 2, 3, 5, 7, 10, 42, 2 ** 63, -2 ** 64, 255)
 FLOATS = (0.0, -0.0, 1.5, -2.25, 1e308, float('inf'), float('-inf'), float('nan'), 0.1, 5.0, 7.0)
 STRS = ('', 'a', 'abc', 'héllo', '日本語', 'a\x00b', '12', '1.5', '2023-09-05', 'x' * 40, 'yes', 'null', ' pad ',
@@ -96,7 +97,7 @@ def member(ty: Ty, rng, small=False, hashable=False, depth=0):
         kw.setdefault('hashable', hashable)
         return member(c, rng, small=small, depth=depth + 1, **kw)
 
-    if k == 'int': return ch(INTS[:8] if small else INTS)
+    if k == 'int': return ch(INTS[:8] if (small or SMALL_INTS_ONLY) else INTS)
     if k == 'float': return ch(FLOATS + INTS[:6]) if not small else ch((0.5, 2.0, 3))
     if k == 'complex': return ch((1 + 2j, 0j, 1.5, 3, complex('nan'), -1j))
     if k == 'bool': return ch((True, False))
